@@ -53,10 +53,28 @@ fn run_case(rec: &mut Rec, d: &Value) {
         let (px, done) = s.pixels(&st, 2_000_000);
         let mut tp = MapTarget::<C>::new();
         tp.draw_iter(px.into_iter()).unwrap();
-        (fb, sb, shb, env, f, sset, c, t, tp, done)
+        // the same draw() on targets that REPORT a small window as their bounding box (everything they receive is
+        // logged): the bottom-right and the top-left part of the stroke area, the strip right of / below the shape's
+        // own box (only an outside stroke reaches it), an empty window
+        let (w, h) = (sb.size.width.max(1) as i32, sb.size.height.max(1) as i32);
+        let big = Size::new(w as u32 + 3, h as u32 + 3);
+        let wins = [
+            Rectangle::new(sb.top_left + Point::new(w / 2, h / 2), big),
+            Rectangle::new(sb.top_left - Point::new(w / 2 + 3, h / 2 + 3), big),
+            Rectangle::new(shb.top_left + Point::new(shb.size.width as i32, -2), big),
+            Rectangle::new(shb.top_left + Point::new(-2, shb.size.height as i32), big),
+            Rectangle::new(sb.top_left + Point::new(w / 2, h / 2), Size::zero()),
+        ];
+        let mut wobs = vec![];
+        for wbox in wins {
+            let mut tw = MapTarget::<C>::with_box(wbox);
+            s.draw(&st, &mut tw).unwrap();
+            wobs.push(json!({"box": rect_json(&wbox), "map": cruns_of(&tw.map)}));
+        }
+        (fb, sb, shb, env, f, sset, c, t, tp, done, wobs)
     });
     match r {
-        Ok((fb, sb, shb, env, f, sset, c, t, tp, done)) => {
+        Ok((fb, sb, shb, env, f, sset, c, t, tp, done, wobs)) => {
             if !t.map.is_empty() {
                 rec.nontrivial();
             }
@@ -67,7 +85,7 @@ fn run_case(rec: &mut Rec, d: &Value) {
                 "styled",
                 json!({"kind": s.kind(), "style": d["style"], "shape_box": rect_json(&shb), "fill_box": rect_json(&fb),
                     "stroke_box": rect_json(&sb), "region": rect_json(&env), "F": runs_of(&f), "S": runs_of(&sset), "C": runs_of(&c),
-                    "draw": cruns_of(&t.map), "pixels": cruns_of(&tp.map), "trunc": (!done) as i32}),
+                    "draw": cruns_of(&t.map), "pixels": cruns_of(&tp.map), "trunc": (!done) as i32, "wins": wobs}),
             );
         }
         Err(p) => {
@@ -116,6 +134,24 @@ fn main() {
     }
     for d in 0..=(if th { 40 } else { 16 }) {
         shapes.push(json!({"k":"circle","tl":[-3, -3],"d":d}));
+    }
+    // two thirds of the shapes are moved away from the origin: into the positive and into the negative quadrant
+    for (n, s) in shapes.iter_mut().enumerate() {
+        let by = [(0, 0), (41, 33), (-47, -39)][n % 3];
+        let key = if s.get("r").is_some() { "r" } else { "tl" };
+        s[key][0] = json!(i(&s[key][0]) + by.0);
+        s[key][1] = json!(i(&s[key][1]) + by.1);
+    }
+    // inside strokes far wider than any shape, up to u32::MAX (recorded as "w": 2^20 - for an inside stroke every
+    // width >= the shape's sides gives the same areas - with the real width in "wreal")
+    for (n, wreal) in [0x7FFF_FFFFu32, 0x8000_0001, 0xC000_0000, u32::MAX - 1, u32::MAX, 1 << 20].into_iter().enumerate() {
+        for shape in [json!({"k":"rect","r":[3, -2, 7, 5]}), json!({"k":"circle","tl":[-3, 4],"d":9}), json!({"k":"ellipse","tl":[2, 2],"size":[8, 5]}),
+                      json!({"k":"rrect","r":[-6, -6, 9, 8],"radii":[[2, 2], [1, 3], [0, 0], [4, 4]]})] {
+            let (f, sc) = [(col.fill, col.stroke), (-1, col.stroke), (col.fill, -1)][n % 3];
+            let mut st = style_desc(f, sc, 1 << 20, 0);
+            st["wreal"] = json!(wreal.to_string());
+            run_case(&mut rec, &json!({"shape": shape, "style": st}));
+        }
     }
     for (n, s) in shapes.iter().enumerate() {
         for (k, st) in styles.iter().enumerate() {
